@@ -90,6 +90,7 @@ class Analysis(object):
         return None
 
     def _find_aliases(self):
+        self.snap = {}     # integer local -> object whose size it holds (`const size_t n = it->second.size();`)
         for n in facts.fn_nodes(self.f):
             if n["k"] == "VarDecl" and n.get("c"):
                 t = facts.tyi(self.f, n.get("t"))
@@ -97,6 +98,12 @@ class Analysis(object):
                     o = self.obj(n["c"][0])
                     if o and o[0] == "elem":
                         self.alias[n["var"]] = o
+        sa = facts.single_assign(self.f)
+        for n in facts.fn_nodes(self.f):
+            if n["k"] == "VarDecl" and n.get("c") and n.get("var") in sa and (facts.tyi(self.f, n.get("t")) or {}).get("k") == "int":
+                tm = self.size_terms(n["c"][0])
+                if tm is not None and len(tm) == 1 and tm[0][0] == 1:
+                    self.snap[n["var"]] = tm[0][1]
 
     # -- size terms ------------------------------------------------------------------
     def size_terms(self, e, sign=1):
@@ -114,6 +121,8 @@ class Analysis(object):
             o = self.obj(cfg.receiver(e))
             if o and o[0] in ("elem", "local"):
                 return [(sign, o)]
+        if e["k"] == "DeclRefExpr" and e.get("var") in getattr(self, "snap", {}):
+            return [(sign, ("snapof", e["var"]))]
         return None
 
     # -- consumption of std::move(X) ----------------------------------------------------
@@ -192,6 +201,10 @@ class Analysis(object):
             self.exit_states.append(st)
             last = self.g.idx.get(blk["e"][-1]) if blk["e"] else f["body"]
             for k, v in st.items():
+                if k[0] == "owed":
+                    self.report(last or f["body"], "erase-counted:%s" % k[1].split("#")[0],
+                                "an element was erased while its size (saved in `%s`) was still included in the counter, and the function "
+                                "can return without subtracting it" % k[1].split("#")[0])
                 if k[0] == "elem" and "U" in v:
                     self.report(last or f["body"], "exit:%s" % k[1].split("#")[0],
                                 "function can return while the element designated by `%s` is still in the container "
@@ -272,6 +285,12 @@ class Analysis(object):
             s2 = dict(st)
             for sg, o in terms:
                 eff = sg if op == "+=" else -sg
+                if o[0] == "snapof":
+                    # a size saved in a local: settles the debt of an element erased meanwhile, else stands for the object
+                    if eff < 0 and ("owed", o[1]) in s2:
+                        s2.pop(("owed", o[1]))
+                        continue
+                    o = self.snap[o[1]]
                 if o[0] == "elem":
                     cur = s2.get(o, frozenset("C"))
                     new = set()
@@ -358,13 +377,23 @@ class Analysis(object):
                     if ao and ao[0] == "iter":
                         o = ("elem", ao[1])
                         cur = get(o, "C")
+                        owed = None
                         for s in cur:
                             if s == "C":
-                                rep(n, "erase-counted:" + name(o), "the element designated by `%s` is erased from the container while its "
-                                    "size is still included in the counter" % name(o))
+                                saved = [v for v, so in self.snap.items() if so == o and
+                                         self.g.before_on_all_paths(self.g.pos([x for x in facts.fn_nodes(self.f) if x["k"] == "VarDecl" and x.get("var") == v][0]), pos)]
+                                if saved:
+                                    owed = saved[0]     # its size was saved first: the subtraction may follow the erase
+                                else:
+                                    rep(n, "erase-counted:" + name(o), "the element designated by `%s` is erased from the container while its "
+                                        "size is still included in the counter" % name(o))
                             if s == "G":
                                 rep(n, "double-erase:" + name(o), "`%s` may already have been erased" % name(o))
-                        return put(o, "G")
+                        s2 = put(o, "G")
+                        if owed is not None:
+                            s2 = dict(s2)
+                            s2[("owed", owed)] = frozenset("1")
+                        return s2
                     if not quiet:
                         self.undec.append((n, "container.erase with an argument that is not an iterator variable"))
                     return st
